@@ -190,6 +190,7 @@ type Run struct {
 	ctxs           []*subCtx
 	localDepth     int
 	noSummaries    bool
+	auxCounter     int
 	cs             *cryptoState
 	stickyPerm     map[stickyKey]int
 	runRedirects   map[string]*Closure // harness-installed replacements (verifrt.Redirect)
